@@ -48,10 +48,11 @@ def memcpy_hook(exe, st, node, args):
 
 
 def _is_byte_buffer(exe, p):
+    """the serialisation buffer: a flat byte array the contract marks with blob_buffer (byte-typed model arrays are not)"""
     if p.obj is None or p.obj is RAW or p.path:
         return False
     ct = p.obj.ct
-    return isinstance(ct, TInt) and ct.width == 8 and p.obj.n is None
+    return isinstance(ct, TInt) and ct.width == 8 and p.obj.n is None and bool(p.obj.meta.get('blob_buffer'))
 
 
 def _is_blob_copy(exe, dst, src):
